@@ -45,6 +45,19 @@ Obj(x) == LET res == [k \in Rows |-> RSub(RAdd(RMul(R(W[k][1]), x[1]), RMul(R(W[
               r2 == SumR2(res)
           IN RAdd(r2, RMul(A2(al), RAdd(RMul(x[1], x[1]), RMul(x[2], x[2]))))
 
+\* invert_svd: the minimum-norm least-squares solution W^+ b (no regularisation), exact for two unknowns:
+\* full column rank -> Cramer on W^T W x = W^T b; rank one -> W^T b / trace(W^T W) (W^T b lies along the one singular
+\* direction); W = 0 -> 0.  It is unchanged when W and b are multiplied by the same power of ten (ScaleExps).
+Det0 == G(1, 1) * G(2, 2) - G(1, 2) * G(1, 2)
+Tr0 == G(1, 1) + G(2, 2)
+MinNorm == IF Det0 # 0 THEN << RNorm(H(1) * G(2, 2) - G(1, 2) * H(2), Det0), RNorm(G(1, 1) * H(2) - G(1, 2) * H(1), Det0) >>
+           ELSE IF Tr0 # 0 THEN << RNorm(H(1), Tr0), RNorm(H(2), Tr0) >> ELSE << Zero, Zero >>
+ScaleExps == <<0, 4, -20>>
+\* W^T (W x - b) = 0 at the minimum-norm solution
+MinNormSolvesNormalEquations ==
+    /\ RSub(RAdd(RMul(R(G(1, 1)), MinNorm[1]), RMul(R(G(1, 2)), MinNorm[2])), R(H(1))) = Zero
+    /\ RSub(RAdd(RMul(R(G(1, 2)), MinNorm[1]), RMul(R(G(2, 2)), MinNorm[2])), R(H(2))) = Zero
+
 Init == W \in [Rows -> [1..2 -> Entries]] /\ b \in [Rows -> Meas] /\ al \in Alphas
 Next == UNCHANGED vars
 Spec == Init /\ [][Next]_vars
@@ -56,5 +69,5 @@ KKTUnique == \A x, y \in Cands : (KKT(x) /\ KKT(y)) => x = y
 NNLSNotBelowUnconstrained == RLeq(Obj(Unc), Obj(NNLS))
 NNLSEqualsUncWhenFeasible == (Unc[1][1] >= 0 /\ Unc[2][1] >= 0) => NNLS = Unc
 
-EmitCase == PrintT(ToJson([W |-> W, b |-> b, alpha2 |-> A2(al), lstsq |-> Unc, nnls |-> NNLS, obj_lstsq |-> Obj(Unc), obj_nnls |-> Obj(NNLS)]))
+EmitCase == PrintT(ToJson([minnorm |-> MinNorm, scale_exps |-> ScaleExps, rank |-> IF Det0 # 0 THEN 2 ELSE IF Tr0 # 0 THEN 1 ELSE 0, W |-> W, b |-> b, alpha2 |-> A2(al), lstsq |-> Unc, nnls |-> NNLS, obj_lstsq |-> Obj(Unc), obj_nnls |-> Obj(NNLS)]))
 =============================================================================
